@@ -131,7 +131,7 @@ def exDescs : List Desc :=
 example : (lookup (buildRuntime {} exDescs [0, 1]).1.singletons ⟨3, 0, 0⟩) = some (.inst 1) := by decide
 /-- the structural hypotheses are satisfiable: the example registry meets `WF` and `RegWF` -/
 example : WF exDescs ∧ RegWF exDescs := by
-  refine ⟨⟨?_, ?_⟩, ⟨?_, ?_, ?_, ?_, ?_⟩⟩ <;> simp [SibLife, exDescs, findDesc] <;> decide
+  refine ⟨⟨?_, ?_⟩, ⟨?_, ?_, ?_, ?_, ?_, ?_⟩⟩ <;> simp [SibLife, exDescs, findDesc] <;> decide
 example : okIs (scopeGet {} (buildRuntime {} exDescs [0, 1]).1 0 4 0).2 (.inst 2) = true := by decide
 
 end Godi.Props.C01
